@@ -82,6 +82,12 @@ CHECKS = {
             "Held on the executions produced.",
             "searches outside the statement's premise ('>' at different indices in the unfolded forms) are counted and not judged.",
             "runtime differential monitoring of finders against a reference 'last' model over generated universes"),
+    "C10": ("exploration", "3 C10",
+            "metamorphic relations between two executions of the same real Finder on the same data (',' union, alias union, '**' union of "
+            "'/*' levels restricted to leaf types, filter == subset by field, literal-for-'*' == subset, result.match(search), no duplicates) "
+            "on FindInList, FindInPaths(local, server) and FindInAll over generated universes. Held on the executions produced.",
+            "rules are only applied where they are sound for the overlay semantics of filters (see assumptions in the evidence).",
+            "metamorphic runtime monitoring (pairs of executions compared as sets)"),
 }
 
 NOT_YET = {}
